@@ -233,6 +233,8 @@ func craftSharing() {
 		craft(MT, "2x3", "rows 0", craftSet("/rows", uintN(0)))
 		craft(MT, "2x3", "cols 0", craftSet("/cols", uintN(0)))
 		craft(MT, "2x3", "rows*cols != len(data)", craftSet("/rows", uintN(3)))
+		craft(MT, "2x3", "rows*cols < len(data)", craftSet("/rows", uintN(1)))
+		craft(MT, "2x3", "surplus data element", craftArr("/data", func(a *node) { a.kids = append(a.kids, a.kids[0].clone()) }))
 		craft(MT, "2x3", "negative rows", craftSet("/rows", &node{mt: mtNint, arg: 1}))
 		craft(MT, "2x3", "rows*cols overflows", seq(craftSet("/rows", uintN(1<<62)), craftSet("/cols", uintN(4))))
 		craft(MT, "2x3", "rows*cols wraps to len(data)", seq(craftSet("/rows", uintN(1<<63)), craftSet("/cols", uintN(2))))
@@ -242,9 +244,11 @@ func craftSharing() {
 		craft(SQ, "2x2", "none", nil)
 		craft(SQ, "2x2", "size 0", craftSet("/size", uintN(0)))
 		craft(SQ, "2x2", "size^2 != len(data)", craftSet("/size", uintN(3)))
+		craft(SQ, "2x2", "size^2 < len(data)", craftSet("/size", uintN(1)))
 		MV := "mat.ModuleValuedMatrix[k256]"
 		craft(MV, "2x3", "none", nil)
-		craft(MV, "2x3", "rows*cols != len(data)", craftSet("/cols", uintN(2)))
+		craft(MV, "2x3", "rows*cols != len(data)", craftSet("/cols", uintN(4)))
+		craft(MV, "2x3", "rows*cols < len(data)", craftSet("/cols", uintN(2)))
 		craft(MV, "2x3", "not a curve point", craftSet("/data/0/compressedBytes", hexN(k256NoPoint)))
 
 		MS := T("msp.MSP")
